@@ -72,7 +72,15 @@ Print Assumptions c18_tile_inversion.
    spacing; no LF in the text; reported width <= active width, line height(s) <= active
    height): every lit pixel of the line lies between the columns
    border + floor((aw - sw)/2) and border + ceil((aw - sw)/2) + sw + one size step, where sw,
-   line height and size step are the metrics of the returned image's text state ---- *)
+   line height and size step are the metrics of the returned image's text state.
+   Reading of "centred to within one pixel": it is the METRIC box [x0, x0 + sw) - what
+   StrWidth reports and callers centre with - whose left and right margins differ by 0 or 1;
+   the ink lies in that box extended by one size step (C20's ink box: glyphs of characters
+   outside the font are drawn one column wider than their reported width; blank leading /
+   trailing glyph columns make the ink narrower).  A string containing LF (also through rune
+   truncation, e.g. U+010A) is not a one-line text: RenderText moves to column 0 (C20, F16).
+   For format 11, line 1 is the ink above the middle row of the active area, line 2 the ink
+   from it downwards. ---- *)
 Theorem c18_oneline_centred : forall t W H shrink border i,
   0 <= W -> 0 <= H -> 0 <= border -> x_inv t = false -> tile t W H shrink border = Ok i ->
   oneline_ok t W H shrink border (idata i) (str_width (it i) (x_title t)) (line_height (it i)) (tsh (it i)) = true.
